@@ -111,7 +111,7 @@ section app
 variable (L : Layout) (S : Spec) (ts : Nat)
 
 theorem applyResp_err (c : VCall) (msg : String) :
-    applyResp L S c (Resp.err msg) ts = { S with lastTs := ts, expect := Expect.nothing } := rfl
+    applyResp L S c (Resp.err msg) ts = { S with lastTs := ts, expect := Expect.nothing "C20" } := rfl
 
 theorem applyResp_reg : applyResp L S VCall.reg Resp.unit ts = { S with lastTs := ts, expect := Expect.noSend "C10" } := rfl
 
@@ -131,14 +131,14 @@ theorem applyResp_nk_busy :
       { S with lastTs := ts, notified := S.notified.filter (· != Dev.keyboard), expect := Expect.noSend "C10" } := rfl
 
 theorem applyResp_nk_end :
-    applyResp L S VCall.nk (Resp.kbd Next.end_) ts = { S with lastTs := ts, expect := Expect.nothing } := rfl
+    applyResp L S VCall.nk (Resp.kbd Next.end_) ts = { S with lastTs := ts, expect := Expect.nothing "C10" } := rfl
 
 theorem applyResp_nt_busy :
     applyResp L S VCall.nt (Resp.tab Next.busy) ts =
       { S with lastTs := ts, notified := S.notified.filter (· != Dev.tablet), expect := Expect.noSend "C10" } := rfl
 
 theorem applyResp_nt_end :
-    applyResp L S VCall.nt (Resp.tab Next.end_) ts = { S with lastTs := ts, expect := Expect.nothing } := rfl
+    applyResp L S VCall.nt (Resp.tab Next.end_) ts = { S with lastTs := ts, expect := Expect.nothing "C10" } := rfl
 
 theorem applyResp_nt_one (tev : TabletEv) :
     applyResp L S VCall.nt (Resp.tab (Next.one tev)) ts =
